@@ -141,6 +141,40 @@ OBS = {
             lambda r, a: m_sel(r, a[0], a[1], a[2])[1]),
     "rslice": (lambda x, a: CTX.lib.ragged_slice(x, np.array(a[0], dtype=np.int64), np.array(a[1], dtype=np.int64)).tolist(), lambda r, a: [q[s:e] for q, s, e in zip(r, a[0], a[1])]),
 }
+# Results that numpy semantics define as NEW arrays (not views of the receiver): in purity mode the interpreter calls these once more after the
+# observation, keeps the returned object together with a snapshot, and compares them at the end of the program -- a result the caller is still
+# holding must not be changed by anything executed later (a second conversion of the same array, a write to it, another read).
+KEPT = {
+    "padded": lambda x, a: x.as_padded_matrix(fill_value=-1, side="right"),
+    "astype": lambda x, a: x.astype(np.float64),
+    "sum1": lambda x, a: x.sum(axis=-1),
+    "colcounts": lambda x, a: x.col_counts(),
+    "getcol": lambda x, a: x.get_column_values(a),
+    "cumsum": lambda x, a: np.cumsum(x, axis=-1),
+    "sort": lambda x, a: x.sort(axis=-1),
+    "zeros": lambda x, a: np.zeros_like(x),
+    "nonzero": lambda x, a: x.nonzero(),
+    "mean0": lambda x, a: x.mean(axis=0),
+    "sum0": lambda x, a: x.sum(axis=0),
+}
+
+
+def _snap(o):
+    if isinstance(o, tuple):
+        return tuple(_snap(e) for e in o)
+    if isinstance(o, np.ndarray):
+        return o.copy()
+    return peek(o)
+
+
+def _snap_same(o, sn):
+    if isinstance(o, tuple):
+        return all(_snap_same(a, b) for a, b in zip(o, sn))
+    if isinstance(o, np.ndarray):
+        return o.shape == sn.shape and bool(np.array_equal(o, sn, equal_nan=True) if o.dtype.kind == "f" else np.array_equal(o, sn))
+    return deep_same(peek(o), sn)
+
+
 # observations after which the receiver is certainly materialised (used for hazard tracking; conservative:
 # repr/str of an array with more than 100 cells print a *selection* of it and leave the array itself lazy)
 MATERIALISING = {"tolist", "iter", "ravel", "sum1", "npsum1", "sumall", "nonzero", "add1", "eqself", "cumsum", "sort", "diff", "zeros", "concatself", "astype", "save"}
@@ -649,6 +683,7 @@ def run_lib(steps, mode="L", read_plan=None, purity=False, trace=None):
     RA = lib.RaggedArray
     env = {}
     obs, extra, breaches = [], [], []
+    kept = []         # (step, observation, result object, snapshot): results the caller still holds at the end of the program
     groups = {}       # variable -> alias group id
     hazard_seen = False
 
@@ -772,6 +807,13 @@ def run_lib(steps, mode="L", read_plan=None, purity=False, trace=None):
             arg_before = copy.deepcopy(st["arg"]) if purity else None
             res = OBS[st["what"]][0](env[st["u"]], st["arg"])
             obs.append((si, res))
+            if purity and st["what"] in KEPT and len(kept) < 12:
+                try:
+                    o_ = KEPT[st["what"]](env[st["u"]], st["arg"])
+                    kept.append((si, st["what"], o_, _snap(o_)))
+                    CTX.tick("kept-results")
+                except Exception:
+                    pass
             if purity and not deep_same(_plain(arg_before), _plain(st["arg"])):
                 breaches.append((si, st["what"], ["the caller's index argument: %r -> %r" % (_plain(arg_before), _plain(st["arg"]))]))
                 st["arg"] = arg_before
@@ -798,5 +840,12 @@ def run_lib(steps, mode="L", read_plan=None, purity=False, trace=None):
                         CTX.tick("purity-tap")
                         if not deep_same(after, before):
                             breaches.append((si, name, [w for w in before if not deep_same(before[w], after.get(w))]))
+    for (si, what, o_, sn_) in kept:
+        try:
+            ok_ = _snap_same(o_, sn_)
+        except Exception:
+            ok_ = True
+        if not ok_:
+            breaches.append((si, "a later step of the program", ["the result of '%s' that the caller obtained at step %d and still holds" % (what, si)]))
     final = {v: x.tolist() for v, x in env.items()}
     return final, obs, extra, breaches, hazard_seen
